@@ -1,5 +1,14 @@
-from props.common import run_bounded
+from props.common import run_bounded, verify_keys
+
+KEYS = [
+    'parso.python.tree._StringComparisonMixin.__eq__',
+    'parso.tree.NodeOrLeaf.get_root_node', 'parso.tree.NodeOrLeaf.get_next_sibling',
+    'parso.tree.NodeOrLeaf.get_previous_sibling', 'parso.tree.NodeOrLeaf.get_next_leaf',
+    'parso.tree.NodeOrLeaf.get_previous_leaf', 'parso.tree.Leaf.get_first_leaf', 'parso.tree.Leaf.get_last_leaf',
+    'parso.tree.BaseNode.get_first_leaf', 'parso.tree.BaseNode.get_last_leaf',
+]
 
 
 def run(report):
+    verify_keys(report, KEYS)
     run_bounded(report, 'parse')
